@@ -1994,6 +1994,135 @@ fn number_borders(g: &mut G, dir: &std::path::Path) {
 	}
 }
 
+/// characters that break byte-index arithmetic on text: lower/upper-casing changes the UTF-8 length
+/// (Ohm, Kelvin, Angstrom signs, capital sharp s, dotted capital I, 'n preceded by apostrophe, sharp s,
+/// ligatures), combining and direction marks, NUL, BOM, the neighbours of the surrogate range, 4-byte chars
+pub const UNICODE_TRAPS: &[&str] = &[
+	"\u{2126}", "\u{212A}", "\u{212B}", "\u{1E9E}", "\u{0130}", "\u{0149}", "ß", "\u{FB01}", "\u{FB03}", "\u{01C5}", "\u{0301}", "e\u{0301}", "\u{200F}", "\u{202E}", "\u{0}", "\u{FEFF}", "\u{D7FF}", "\u{E000}", "😀", "\u{10FFFF}", "İİ", "K\u{212A}k",
+];
+
+/// the traps before / after every delimiter a decoder looks for (last `.`, `/`, `,`, `"`, `=`), in
+/// stem and extension position, in every text a reader case-folds, trims, splits or slices
+fn unicode_traps(g: &mut G, dir: &std::path::Path) {
+	let probes = "1/0/0,0/0/0";
+	std::fs::create_dir_all(dir).unwrap();
+	let mut tiles = ifm::TileMap::new();
+	tiles.insert((1, 0, 0), b"AAAA".to_vec());
+	let ch = ifm::MbChoices { fmt: ifm::Fmt::Png, as_view: false, with_index: true, extra_meta: vec![], shuffle_rows: false };
+	let p = dir.join("traps-base.mbtiles");
+	let mut r2 = g.rng.fork();
+	let mb_base = if ifm::encode_mbtiles(&p, &ifm::tiles_to_rows(&tiles), &ch, &mut r2).is_ok() { std::fs::read(&p).ok() } else { None };
+	let _ = std::fs::remove_file(&p);
+	for (ti, t) in UNICODE_TRAPS.iter().enumerate() {
+		// --- file / member names: stem, around the dots, in the format and the compression extension
+		let names = [
+			format!("1/0/{t}.png"),
+			format!("1/0/0{t}.png"),
+			format!("1/0/{t}0.png"),
+			format!("1/0/0.{t}png"),
+			format!("1/0/0.png{t}"),
+			format!("1/0/0.p{t}ng"),
+			format!("1/0/0.{t}"),
+			format!("1/0/0{t}"),
+			format!("1/0/{t}.png.gz"),
+			format!("1/0/0.png.{t}gz"),
+			format!("1/0/0.png.gz{t}"),
+			format!("1/0/0.{t}.gz"),
+			format!("1/0/7{t}.pbf"),
+			format!("1/0/{t}€.png.br"),
+			format!("1/{t}/0.png"),
+			format!("{t}/0/0.png"),
+			format!("1{t}/0/0.png"),
+			format!("{t}.json"),
+			format!("tiles{t}.json"),
+			format!("tiles.json{t}"),
+			format!("tiles.{t}json"),
+			format!("{t}"),
+		];
+		for (ni, name) in names.iter().enumerate() {
+			if name.contains('\0') && ni % 4 != 0 {
+				continue; // (NUL cannot be part of a file name; the tar member keeps it)
+			}
+			let odd = ifm::TarMember::file(name, b"{\"name\":\"x\"}");
+			let good = ifm::TarMember::file("1/0/1.png", b"GOOD");
+			for members in [vec![odd.clone(), good.clone()], vec![good.clone(), odd.clone()]] {
+				if let Ok(tar) = ifm::encode_tar(&members, 0) {
+					g.push("tar", "unicode-traps", tar.clone(), probes);
+					if !name.contains('\0') {
+						g.push("dir", "unicode-traps", tar, probes);
+					}
+				}
+			}
+		}
+		if t.contains('\0') {
+			// text decoders: NUL is an ordinary byte there
+		}
+		// --- JSON / TileJSON strings: keys, values, around quotes, commas and colons
+		for doc in [
+			format!("{{\"{t}\":\"{t}\"}}"),
+			format!("{{\"name\":\"{t}\",\"format\":\"{t}png\",\"type\":\"pn{t}g\"}}"),
+			format!("{{\"name{t}\":1,\"{t}bounds\":[1,2,3,4]}}"),
+			format!("{{\"vector_layers\":[{{\"id\":\"{t}\",\"fields\":{{\"{t}\":\"String{t}\"}}}}]}}"),
+			format!("[\"{t}\",\"a{t}\",\"{t}b\"]{t}"),
+			format!("[\"a\"{t},\"b\"]"),
+			format!("{{\"a\"{t}:1}}"),
+			format!("{t}[1]"),
+			format!("tru{t}e"),
+			format!("1{t}2"),
+		] {
+			g.push("json", "unicode-traps", doc.clone().into_bytes(), "");
+			g.push("tilejson", "unicode-traps", doc.into_bytes(), "");
+		}
+		// --- CSV cells, header names, around separators and quotes
+		for doc in [format!("id,{t}\n1,{t}\n"), format!("{t},n\n{t},2\n"), format!("id,n\n1,\"{t}\"\n2,\"a{t},b\"\n"), format!("id,n\n1,\"x\"{t}\n"), format!("id{t},n\n1{t},2\n"), format!("id,n\n1,{t}true\n2,fal{t}se\n")] {
+			g.push("csv", "unicode-traps", doc.clone().into_bytes(), "");
+			g.push("buildcsv", "unicode-traps", doc.into_bytes(), "");
+		}
+		// --- VPL: identifiers, bare and quoted values, around `=`, `|`, `[`, `,`; file names with extensions
+		if !t.contains('\0') || ti % 2 == 0 {
+			for text in [
+				format!("from_container filename=\"{t}.png\""),
+				format!("from_container filename=\"a.{t}\""),
+				format!("from_container filename=\"7{t}.pbf\" | filter_zoom min=1"),
+				format!("from_container filename={t}"),
+				format!("from_container {t}filename=a.pbf"),
+				format!("from_container filename{t}=a.pbf"),
+				format!("from_container filename={t}=a.pbf"),
+				format!("from_{t}container filename=a.pbf"),
+				format!("{t}from_container filename=a.pbf"),
+				format!("from_container filename=a.pbf {t}| filter_zoom min=1"),
+				format!("from_container filename=a.pbf | filter_bbox bbox=[1,{t}2,3,4]"),
+				format!("from_debug format={t}"),
+				format!("from_debug format=\"pb{t}f\""),
+				format!("from_debug format=P{t}BF fast=TRU{t}E"),
+				format!("from_container filename=a.pbf | vectortiles_update_properties data_source_path=\"{t}.csv\" layer_name=\"{t}\" id_field_tiles=\"{t}\" id_field_data=\"{t}\" replace_properties=ye{t}s"),
+				format!("from_overlayed [ from_container filename=\"{t}\", from_container filename=\"b{t}.pbf\" ]"),
+			] {
+				g.push("vpl", "unicode-traps", text.clone().into_bytes(), "");
+				g.push("build", "unicode-traps", text.clone().into_bytes(), "");
+				g.push("vplfile", "unicode-traps", text.into_bytes(), "1/0/0");
+			}
+		}
+		// --- MBTiles metadata: `format` and the other interpreted keys
+		if let Some(base) = &mb_base {
+			if !t.contains('\0') {
+				let esc = t.replace('\'', "''");
+				for sql in [
+					format!("UPDATE metadata SET value = '{esc}' WHERE name = 'format';"),
+					format!("UPDATE metadata SET value = 'pn{esc}g' WHERE name = 'format';"),
+					format!("UPDATE metadata SET value = '{esc}png' WHERE name = 'format';"),
+					format!("UPDATE metadata SET name = 'format{esc}';"),
+					format!("INSERT INTO metadata VALUES ('bounds', '1,{esc}2,3,4'); INSERT INTO metadata VALUES ('center', '{esc}'); INSERT INTO metadata VALUES ('name', '{esc}'); INSERT INTO metadata VALUES ('{esc}', '{esc}'); INSERT INTO metadata VALUES ('json', '{{\"{esc}\":\"{esc}\"}}');"),
+				] {
+					if let Some(v) = sqlite_variant(dir, base, &sql) {
+						g.push("mb", "unicode-traps", v, probes);
+					}
+				}
+			}
+		}
+	}
+}
+
 pub fn generate(args: &Args) -> Vec<Case> {
 	let mut g = G { rng: Rng::new(args.seed), cases: vec![] };
 	let thorough = args.thorough();
@@ -2019,6 +2148,7 @@ pub fn generate(args: &Args) -> Vec<Case> {
 	after_open(&mut g, &scratch);
 	mb_metadata(&mut g, &scratch, thorough);
 	number_borders(&mut g, &scratch);
+	unicode_traps(&mut g, &scratch);
 	let _ = std::fs::remove_dir_all(&scratch);
 	tar_cases(&mut g, args.n(300, 6000));
 	coord_name_family(&mut g);
